@@ -317,6 +317,10 @@ pub fn run_many<'a, T>(
     while done < n {
         steps += 1;
         net.stats.steps += 1;
+        if steps % 4096 == 0 {
+            // a long but progressing case (the step limit ends a livelock) is not a hang
+            crate::progress::tick();
+        }
         if steps > net.step_limit {
             return Err(Stuck::StepLimit);
         }
